@@ -125,7 +125,8 @@ def run(ctx):
                 cr[rng.choice(['system', 'system_scope', 'domain_id', 'project_id'])] = rng.choice(
                     [{'all': True}, ['all'], 1, True, 'all', {}, 0, 7, 1.5, None, [], {'id': 'd'}, 'p'])
             cases.append(ec.enforce_case(rules, call, target, cr, dflt=rng.choice([('opt', None), ('name', names[-1])]),
-                                         want='c14', creds_obj=creds_obj, registered=registered, enforce_scope=escope))
+                                         want='c14', creds_obj=creds_obj, registered=registered, enforce_scope=escope,
+                                         via=rng.choice(['rules_obj', 'rules_obj', 'dict', 'main_file', 'dir_only'])))
         for n, t in rules:
             for sx in ev.tree_strings(t, []):
                 lhs_seen.add(sx)
